@@ -246,6 +246,7 @@ fn strat_to_json(s: Strat) -> Value {
         Strat::StarveOne(v) => json!(["starve_one", v]),
         Strat::ReleaseEager => json!(["release_eager", 0]),
         Strat::ReleaseLazy => json!(["release_lazy", 0]),
+        Strat::ReleaseOrder(x) => json!(["release_order", x.to_string()]),
     }
 }
 
@@ -947,6 +948,47 @@ fn agree_pair(prog: &Prog, st: &mut Stats, seed: u64, b: Budget, out_fail: &mut 
                     let j = failure_to_json("C07", prog, &f, ev, 0, seed, "");
                     out_fail.push((f, j));
                     return;
+                }
+                // async kinds: under the SAME completion order (gates released in an order that depends only on their
+                // identity, every notified task polled to quiescence in between) the plain macro, its task-spawning
+                // counterpart and the alias must yield the same outcome — also when several branches fail
+                if spawn_kind.is_async() {
+                    let mut p2 = plan.clone();
+                    p2.spoll_pm = 0;
+                    p2.swake_pm = 0;
+                    let ro = Strat::ReleaseOrder(rs);
+                    let a = evaluate("C07", prog, plain, &p2, ro, rs, None);
+                    let b2 = evaluate("C07", prog, spawn_kind, &p2, ro, rs, None);
+                    let c2 = evaluate("C07", prog, alias, &p2, ro, rs, None);
+                    record_stats(st, prog, plain, &p2, ro, &a, ph);
+                    record_stats(st, prog, spawn_kind, &p2, ro, &b2, ph);
+                    record_stats(st, prog, alias, &p2, ro, &c2, ph);
+                    *st.probes.entry("same_completion_order_triples").or_insert(0) += 1;
+                    if !a.refnp.fail_notes.is_empty() && a.refnp.fail_notes.iter().any(|n| n.3 > 1) {
+                        *st.probes.entry("same_completion_order_with_several_failures").or_insert(0) += 1;
+                    }
+                    let same = |x: &Outcome, y: &Outcome| match (x, y) {
+                        (Outcome::Value(p), Outcome::Value(q)) => p == q,
+                        (Outcome::Panic(_), Outcome::Panic(_)) => true,
+                        _ => false,
+                    };
+                    let bad = if !same(&a.obs.outcome, &b2.obs.outcome) {
+                        Some((spawn_kind, &b2))
+                    } else if !same(&a.obs.outcome, &c2.obs.outcome) {
+                        Some((alias, &c2))
+                    } else {
+                        None
+                    };
+                    if let Some((k, ev)) = bad {
+                        let msg = format!(
+                            "under the same completion order (release_order seed {}) {} yields {} but {} yields {}",
+                            rs, plain.name(), a.obs.outcome.short(), k.name(), ev.obs.outcome.short()
+                        );
+                        let f = Failure { prog_id: prog.id, kind: k, plan: p2.clone(), strat: ro, seed: rs, decisions: ev.obs.decisions.clone(), code: "C07.value_differs", msg };
+                        let j = failure_to_json("C07", prog, &f, ev, 0, seed, "");
+                        out_fail.push((f, j));
+                        return;
+                    }
                 }
             }
         }
